@@ -321,14 +321,19 @@ func checkC05(tier string) int {
 	r.Rule = "for every transaction kind the workload produces, a transaction that executes with code 0 on a fork of a warmed-up chain is resubmitted in other encodings of the same signed content (identical bytes, leading/trailing/inner whitespace, key order, duplicate key, extra field, unicode escape, field-name case, number form), after 0 or several blocks and after a node restart; a resubmission counts only if the repository's own deserialiser yields the same signed content and signatures; it goes to CheckTx (after the tx indexer caught up) and, alone, into a byzantine block whose resulting state is compared key by key with a twin that ran an empty block instead; non-trivial = resubmission of a base that executed with code 0; distinct by (warm height, kind, encoding, gap, restart)"
 	r.Assumptions = []string{"the box waits until Tendermint's asynchronous indexer has stored the executed block before resubmitting"}
 	seed := verdict.Seed()
-	heights := []int{12}
+	heights := []int{12, 9}
 	if tier == "thorough" {
-		heights = []int{8, 14, 21, 30}
+		heights = []int{8, 14, 21, 30, 17}
 	}
 	var warms []*warm
 	var wmu sync.Mutex
-	parallel(len(heights), 4, func(i int) {
-		wm, err := makeWarm(seed*100+int64(i)+50, heights[i], 1, allScripts)
+	parallel(len(heights), 5, func(i int) {
+		// the last warm-up chain never reaches the fork height
+		fr := int64(1)
+		if i == len(heights)-1 {
+			fr = 0
+		}
+		wm, err := makeWarm(seed*100+int64(i)+50, heights[i], fr, allScripts)
 		if err != nil {
 			r.Inconclusive(fmt.Sprintf("warm-up chain %d failed: %v", i, err))
 			return
@@ -428,7 +433,7 @@ func checkC05(tier string) int {
 				tw := wm.replayProbeCrash(b.Bytes, nil, v.gap, v.restart, v.crash, between[bi]...)
 				if tw.err != nil || tw.died || !tw.baseOK {
 					r.Count("bases_not_executable", 1)
-					if between[bi] != nil || b.Note == "transfer with an empty memo" {
+					if (between[bi] != nil && wm.w.P.Frankenstein != 0) || b.Note == "transfer with an empty memo" {
 						r.Inconclusive(fmt.Sprintf("directed base %q did not execute on the fork (err=%v died=%v log=%s)", b.Note, tw.err, tw.died, cut(tw.baseLog, 200)))
 					}
 					return
